@@ -309,6 +309,11 @@ func c05ChainFamily(lang string, family int) {
 	in[0].AddObject(ast.NewObject("p", "Al", ast.String()))
 	in[0].AddObject(ast.NewObject("p", "Al2", ast.NewRef("p", "Al")))
 	in[0].AddObject(ast.NewObject("p", "AlArr", ast.NewArray(ast.String())))
+	structAlias := family == 0 && v.Bool("structalias")
+	if structAlias {
+		// an alias of a struct, declared after the objects that refer to the struct
+		in[0].AddObject(ast.NewObject("p", "AlBar", ast.NewRef("p", "Bar")))
+	}
 	if v.Bool("entrypoint") {
 		in[0].EntryPoint = "Foo"
 		in[0].EntryPointType = ast.NewRef("p", "Foo")
@@ -326,6 +331,12 @@ func c05ChainFamily(lang string, family int) {
 		}
 	}
 	v.Excuse("java-alias-of-array-removed", lang == "java" && in[0].EntryPoint == "Foo" && fooTarget.Kind == ast.KindArray)
+	// Java: the struct an alias stands for is removed and only DIRECT struct-field references to it are rewritten
+	barElsewhere := false
+	for _, pos := range symir.Collect(foo.Type, "", nil) {
+		barElsewhere = v.Or(barElsewhere, v.And(pos.Name == "Bar", !strings.HasSuffix(pos.Where, ".field:ref")))
+	}
+	v.Excuse("java-struct-alias-other-references", v.And(lang == "java" && structAlias, barElsewhere))
 	out, err := chainOf(lang).Process(in)
 	if err != nil {
 		v.Reach("chain returned an error")
